@@ -59,10 +59,18 @@ func (w Week) Period() Period {
 		if since.Weekday() == 1 {
 			break
 		}
+		if since.Year() == 0 && since.Month() == 1 && since.Day() == 1 {
+			// 0000-01-01 is the first representable date, so we can’t peak back from it.
+			break
+		}
 		since = since.PlusDays(-1)
 	}
 	for {
 		if until.Weekday() == 7 {
+			break
+		}
+		if until.Year() == 9999 && until.Month() == 12 && until.Day() == 31 {
+			// 9999-12-31 is the last representable date, so we can’t peak forward from it.
 			break
 		}
 		until = until.PlusDays(1)
